@@ -335,7 +335,11 @@ class ChangeBlock(object):
             raise ChangelogCreateError("Changes not specified")
         for change in self.changes():
             block += change + "\n"
-        if not self._no_trailer:
+        # A block that was read without its trailer line (end of input in the
+        # middle of the block) is written without one, unless an author or a
+        # date has been assigned since.
+        if (not self._no_trailer
+                or self.author is not None or self.date is not None):
             block += " --"
             if self.author is not None:
                 block += " " + self.author
